@@ -5,7 +5,8 @@ of_01.OpenFlow_01_Task.run() (accept / read / close / except logic, of_01.socket
 ioworker.RecocoIOLoop.run() (real RecocoIOWorkers on fake sockets, OFConnection + SoftwareSwitch behind
 them).  The victim's stream is valid traffic with corruptions; the siblings' streams are valid.  Optionally the victim's
 socket also fails (fault sequences): sends fail or would block once a reply is owed, and the peer hangs up, resets
-or keeps talking, reported by select in the same wake-up or in successive ones.
+or keeps talking, reported by select in the same wake-up or in successive ones.  Optionally a second connection
+misbehaves too, readable in the same wake-up as the first or in a later one; clauses (iv)/(v) apply to each.
 
 Oracle, clause by clause (DESIGN.md section 4, C10):
  (i)   every wake-up of the loop returns within a deterministic line budget (sys.monitoring LINE events);
@@ -46,7 +47,8 @@ LEVEL_NOTE = ("non-termination is observed as exceeding a line budget of 200000 
 RULE = ("a case is (side, victim item list with corruption ops, 1-2 sibling message lists, order of connections, segmentation, EOF flag, "
         "optional socket fault script {peer: silent/more data/EOF/reset/timeout} x {send: ok/EAGAIN/EPIPE/ECONNRESET} x {same wake-up, "
         "recv first, send first} applied after a chosen chunk); "
-        "non-trivial when a fault script hits a victim that owes a reply, or when the victim stream differs from well-formed traffic, at least one intact valid message follows the first "
+        "optionally a second victim (item list, accept position, delay in rounds); "
+        "non-trivial when a fault script hits a victim that owes a reply, or two victims are both corrupted, or when the victim stream differs from well-formed traffic, at least one intact valid message follows the first "
         "corrupted item, and a sibling still has undelivered traffic when the corrupted bytes are processed (siblings always get a "
         "second chunk and a probe after the victim's last bytes); distinct by SHA-1 of the canonical JSON of the case")
 ASSUMPTIONS = [
@@ -68,7 +70,10 @@ EXHAUSTIVE_SCOPE = {
            "the corrupted header split across two reads or separately from its body. Socket fault grid: a victim that owes a reply "
            "(switch: BAD_TYPE error, BAD_LEN error, echo reply, features reply; controller: echo reply, features request) x peer "
            "{silent, more data, EOF, ECONNRESET, ETIMEDOUT} x send {ok, EAGAIN, EPIPE, ECONNRESET} x {reported in the same wake-up, "
-           "recv first, send first} x victim first/last x 1-2 siblings.",
+           "recv first, send first} x victim first/last x 1-2 siblings. Two victims: every ordered pair of 6 offender kinds (bad "
+           "version, length 0, length 5, unknown type, length shorter than the type's fixed part, inconsistent body) x 6 accept orders "
+           "of (victim, second victim, sibling) x second victim's bytes in the same wake-up or the next x 2 stream shapes; every "
+           "clause is applied to each victim.",
   "thorough": "the same for every message type of each direction (all stats kinds, queue properties) and for the 9 types of the "
               "opposite direction arriving at the wrong side",
 }
@@ -1004,7 +1009,7 @@ def enum_two_victims(tier):
               v1 = [dict(a), x] if shape == 0 else [y, dict(a), x]
               v2 = [dict(b), y] if shape == 0 else [x, dict(b), y]
               sib = [[_valid(side, idx + 1), _valid(side, idx + 4), _valid(side, idx + 6)]]
-              c = {"side": side, "label": "two:%s+%s" % (na, nb), "victim": v1, "victim2": v2, "sib": sib,
+              c = {"side": side, "label": "two-victims", "victim": v1, "victim2": v2, "sib": sib,
                    "vpos": vpos, "wpos": wpos, "wdelay": wdelay}
               if shape == 1 and idx % 2:
                 # the first victim's offending message arrives in its second chunk, i.e. in the round of wdelay=1
